@@ -36,7 +36,9 @@ filled in from the pinned file by harness/translate/__init__.py.
 
 `formulas()` also returns the Python expressions (as source text over the parameter names) so that the harness can
 cross-check the translator's reading: the generated Lean definition evaluated by the driver at `Float` against `eval`
-of the expression on the same points.  The doc comments carry the source snippet, never a line number.
+of the expression on the same points.  The doc comments carry that expression (the source snippet with the
+inputs under their parameter names), never a line number, so a shifted line or a renamed local does not change the
+generated text.
 """
 from __future__ import annotations
 
@@ -489,7 +491,9 @@ def build():
             lost.append(str(e))
             continue
         py = text(node)
-        doc = (flow.src_of(node) or py).replace("`", "'")
+        # the snippet shown is the expression over the parameter names (what was translated, and what the cross-check
+        # family evaluates): a refactoring that keeps the formula keeps the generated text byte for byte
+        doc = py.replace("`", "'")
         if column:
             tr.params.append(("Unew", "List α"))
         parts.append(lean_def(name, doc, tr, body, ret))
